@@ -339,3 +339,13 @@ pub fn pk_to_coordinates(pk: &[u8]) -> Result<(Bytes, Bytes), String> {
     let (x, y) = p.to_coordinates();
     Ok((x.to_vec(), y.to_vec()))
 }
+
+/// the generator list the blind interface verifies against: create(n, api) ++ create(m, "BLIND_" || api)
+pub fn merged_blind_generators(s: Suite, n: usize, m: usize, api_present: bool) -> Result<Vec<[u8; 48]>, String> {
+    use group::Curve;
+    with_suite!(s, CS, {
+        let api: Option<&[u8]> = if api_present { Some(<CS as BbsCiphersuite>::API_ID_BLIND) } else { None };
+        let (_, g) = zkryptium::bbsplus::blind::prepare_parameters::<CS>(None, None, n, m, None, api).map_err(e2s)?;
+        Ok(g.values.iter().map(|p| p.to_affine().to_compressed()).collect())
+    })
+}
